@@ -295,6 +295,19 @@ HOSTILE_ATTR_VALUES = ['"#x y"', '"|"', '">"', '"a: b"', '"a\nb"', '" lead"', '"
                        '"' + "x" * 300 + '"', '"\'"', '"{{ x }}"', '"- a"', '"\\"', '"&amp;"', '"*md*"', '":"', '"---"']
 
 
+HOSTILE_DESTS = [
+            "a" * 300, "d/" * 200 + "f.md", "a" * 5000 + ".md", "%00", "a%00b.md", "\\x00", "a\x00b", "f.md#" + "s" * 300,
+            "../" * 50 + "x.md", "/", "//", ".", "..", "~", "C:\\x", "file:///etc/passwd", "a b.md", "é.md", "\U0001f600.md",
+            "#", "##", "#a#b", "?q", "f.md?q#a", "x:", ":x", "://", "inv:", "inv:#", "inv:k", "inv:k:d:t:e#x", "inv:*#*",
+            "inv:#\\*", "project:", "project:#", "path:", "path:/", "project:" + "a" * 300, "mailto:", "http:", "javascript:x",
+            "<", ">", "a\tb", "\ufeff", "a\u2028b", "inv://[x", "inv://[x#y", "wiki://[x", "x://[y", "http://[x", "http://[::1]:99999/",
+            "inv:k:[#x", "project://[x", "path://[x", "x://a]b", "wiki://a:b:c/d", "inv:#%", "inv:%zz#x", "x:%", "http://a:b/"]
+HOSTILE_FORMS = ["[t]({d})", "[]({d})", "[t](<{d}>)", "<{d}>", "![a]({d})", "[t]: {d}\n\n[t]",
+                                     "[t](project:{d})", "<project:{d}>", "[t](path:{d})", "<path:{d}>", "[t](inv:{d})", "<inv:a:b:c:d#{d}>",
+                                     "```{{image}} {d}\n```", "```{{figure}} {d}\n```", "```{{include}} {d}\n```",
+                                     "```{{literalinclude}} {d}\n```", "```{{download}} {d}\n```"]
+
+
 @st.composite
 def hostile_case(draw):
     k = draw(st.integers(0, 8))
@@ -346,17 +359,8 @@ def hostile_case(draw):
                                      "{'a': 1}", "a is defined", "\"}}\""]))
         text = "{{ " + expr + " }}\n\ninline {{ " + expr + " }} text\n"
     elif k == 4:
-        dest = draw(st.sampled_from([
-            "a" * 300, "d/" * 200 + "f.md", "a" * 5000 + ".md", "%00", "a%00b.md", "\\x00", "a\x00b", "f.md#" + "s" * 300,
-            "../" * 50 + "x.md", "/", "//", ".", "..", "~", "C:\\x", "file:///etc/passwd", "a b.md", "é.md", "\U0001f600.md",
-            "#", "##", "#a#b", "?q", "f.md?q#a", "x:", ":x", "://", "inv:", "inv:#", "inv:k", "inv:k:d:t:e#x", "inv:*#*",
-            "inv:#\\*", "project:", "project:#", "path:", "path:/", "project:" + "a" * 300, "mailto:", "http:", "javascript:x",
-            "<", ">", "a\tb", "\ufeff", "a\u2028b", "inv://[x", "inv://[x#y", "wiki://[x", "x://[y", "http://[x", "http://[::1]:99999/",
-            "inv:k:[#x", "project://[x", "path://[x", "x://a]b", "wiki://a:b:c/d", "inv:#%", "inv:%zz#x", "x:%", "http://a:b/"]))
-        form = draw(st.sampled_from(["[t]({d})", "[]({d})", "[t](<{d}>)", "<{d}>", "![a]({d})", "[t]: {d}\n\n[t]",
-                                     "[t](project:{d})", "<project:{d}>", "[t](path:{d})", "<path:{d}>", "[t](inv:{d})", "<inv:a:b:c:d#{d}>",
-                                     "```{{image}} {d}\n```", "```{{figure}} {d}\n```", "```{{include}} {d}\n```",
-                                     "```{{literalinclude}} {d}\n```", "```{{download}} {d}\n```"]))
+        dest = draw(st.sampled_from(HOSTILE_DESTS))
+        form = draw(st.sampled_from(HOSTILE_FORMS))
         text = form.format(d=dest) + "\n"
     elif k == 5:
         text = draw(st.sampled_from([
@@ -595,8 +599,31 @@ def sub_atheris(acc, shard, nshards, tier, seed):
                       timeout=2400, extra_args=["-len_control=0"])
 
 
+def sub_links_enum(acc, shard, nshards, tier, seed):
+    """Every hostile destination x every link / image / directive spelling (exhaustive), all extensions on; docutils front
+    end in every shard, Sphinx front end in the odd ones."""
+    kn = known()
+    cfg = {"enable_extensions": sorted(mdgen.ALL_EXTENSIONS), "url_schemes": {"http": None, "wiki": {"url": "https://w/{{path}}"}, "x": None},
+           "heading_anchors": 2}
+    i = 0
+    for dest in HOSTILE_DESTS:
+        for form in HOSTILE_FORMS:
+            i += 1
+            if i % nshards != shard:
+                continue
+            case = {"gen": "links_enum", "text": form.format(d=dest) + "\n", "cfg": dict(cfg)}
+            for fe in (("docutils", "sphinx") if shard % 2 else ("docutils",)):
+                for v in check_case(acc, case, fe):
+                    if kn.matches(v):
+                        acc.known_hits[v["signature"]] += 1
+                    elif len(acc.violations) < 8 and all(v["signature"] != w["signature"] for w in acc.violations):
+                        acc.violations.append(v)
+    acc.exhaustive = True
+
+
 def plan(tier):
-    subs = [Sub("docutils", sub_docutils, 10 if tier == "quick" else 16),
+    subs = [Sub("links_enum", sub_links_enum, 4),
+            Sub("docutils", sub_docutils, 10 if tier == "quick" else 16),
             Sub("sphinx", sub_sphinx, 6 if tier == "quick" else 16)]
     if tier == "thorough":
         subs.append(Sub("atheris", sub_atheris, 6))
